@@ -213,6 +213,18 @@ func genFilterPlan(r *zsim.Rng) *filterPlan {
 
 const sgrOn, sgrOff = "\x1b[31;1m", "\x1b[0m"
 
+// overstrike puts a struck-out character (X, backspace) in front of the first word: with --ansi it disappears.
+func overstrike(line string) string {
+	i := 0
+	for i < len(line) && line[i] == ' ' {
+		i++
+	}
+	if i >= len(line) {
+		return line
+	}
+	return line[:i] + "Z\b" + line[i:]
+}
+
 // decorate wraps the first word of a line in SGR sequences.
 func decorate(line string) string {
 	i := 0
@@ -401,6 +413,7 @@ func expectFilter(c *runCtx, p *filterPlan, opts *Options, records []string, con
 		if p.Ansi {
 			disp = strings.ReplaceAll(strings.ReplaceAll(disp, sgrOn, ""), sgrOff, "")
 			disp = strings.ReplaceAll(disp, "\x1b[m", "")
+			disp = strings.ReplaceAll(disp, "Z\b", "")
 		}
 		if tr != nil {
 			disp = strings.TrimRight(disp, " \t\n\r\v\f")
@@ -408,7 +421,7 @@ func expectFilter(c *runCtx, p *filterPlan, opts *Options, records []string, con
 		items[i] = frozenItem{Index: int32(i), Text: disp}
 		orig[i] = r
 		if p.Ansi {
-			orig[i] = strings.ReplaceAll(strings.ReplaceAll(r, sgrOn, ""), sgrOff, "")
+			orig[i] = strings.ReplaceAll(strings.ReplaceAll(strings.ReplaceAll(r, sgrOn, ""), sgrOff, ""), "Z\b", "")
 		}
 	}
 	if p.Tail > 0 && len(items) > p.Tail {
@@ -462,7 +475,11 @@ func runFilter(c *runCtx) {
 	if plan.Decorate > 0 {
 		for i := range lines {
 			if i%plan.Decorate == 0 {
-				lines[i] = decorate(lines[i])
+				if plan.Ansi && i%(2*plan.Decorate) == 0 {
+					lines[i] = overstrike(lines[i])
+				} else {
+					lines[i] = decorate(lines[i])
+				}
 			}
 		}
 	}
@@ -516,7 +533,7 @@ func runFilter(c *runCtx) {
 				sub = append(sub, l)
 				k := l
 				if plan.Ansi {
-					k = strings.ReplaceAll(strings.ReplaceAll(l, sgrOn, ""), sgrOff, "")
+					k = strings.ReplaceAll(strings.ReplaceAll(strings.ReplaceAll(l, sgrOn, ""), sgrOff, ""), "Z\b", "")
 				}
 				keep[k] = true
 			}
